@@ -32,6 +32,16 @@ Theorem C03_step :
 Proof. exact step_spec. Qed.
 Print Assumptions C03_step.
 
+(* What the two counts of the Spec count: deleted = |D n Del|, inserted = the number of distinct
+   quads of Ins that are not in D \ Del - "the number of quads that actually changed". *)
+Theorem C03_counts :
+  forall (D : dataset) (Del Ins : list quad),
+    exists New, NoDup New /\ (forall q, In q New <-> In q Ins /\ ~ In q (qdiff (dq D) Del)) /\
+      snd (spec_apply D Del Ins) =
+      (N.of_nat (length New), N.of_nat (length (filter (fun q => qmem q Del) (dq D)))).
+Proof. exact spec_apply_counts. Qed.
+Print Assumptions C03_counts.
+
 (* Without the class hypothesis the model computes the same semantics with `a` read as the word `a`. *)
 Theorem C03_step_model :
   forall (wh : Type) (eval_where : wh -> dataset -> list solution) (where_terms : wh -> list term)
